@@ -129,11 +129,11 @@ def _ob_s1(n_extra, recv_kind):
     return s1
 
 
-for _n, _rk in ((0, 'none'), (1, 'valid'), (0, 'invalid'), (2, 'none')):
+for _n, _rk in ((0, 'none'), (1, 'valid'), (0, 'invalid'), (2, 'none'), (2, 'valid')):
     obligation('C04', 'S1.swap_xyk_extra%d_recv_%s' % (_n, _rk),
                entries=['execute', 'swap::commands::swap', 'perform_swap', 'compute_swap', 'compute_fees', 'get_swap_computation',
                         'aggregate_outgoing_fees', 'one_coin', 'validate_addr_or_default', 'burn_coin_msg'],
-               kind='S', tier='quick' if _n < 2 else 'thorough',
+               kind='S', tier='quick' if (_n < 2 or _rk == 'valid') else 'thorough',
                statement='executed constant-product swap through the public Swap message: offer reserve += offer; ask reserve -= return+protocol+burn; '
                          'receiver (validated receiver or sender) gets gross - all fees; fee collector gets floor(gross*protocol); burn leaves supply; '
                          'swap/extra fees stay; no other balance changes; only transfers and burns',
